@@ -5,6 +5,10 @@ props=[json.loads(l) for l in open('/verif/properties.jsonl')]
 ids=[p['id'] for p in props]
 TECH="bounded symbolic execution of the Go SSA of the real code (own engine gosym) with SMT-decided path conditions and assertions (z3 5.1 bit-vectors); counterexamples replayed natively"
 claimed={
+ "C18": dict(
+   text="Generated DeepEqual (real thriftgo binary, gen_deep_equal) executed symbolically on two values of every struct-like of the corpus: for all full-width symbolic leaves, symbolic optional presence and symbolic map keys, x.DeepEqual(y) is true exactly when an in-harness structural equality over the generic value trees holds (absent optional differs from present, nil and empty containers equal, key-wise maps), it is symmetric and reflexive, nil receivers/arguments do not panic, and Write rejects exactly the sets that hold two equal elements.",
+   note="Bounds: containers/strings of length n<=1 quick (y shares the presence structure of x except one freely chosen member), thorough n<=2 and fully independent x, y; sets with 2 (3) free elements. Doubles assumed non-NaN. Struct-typed map keys are not in the corpus. Programs dimension: the designed corpus.",
+   ref="6 C18"),
  "C02": dict(
    text="The real thriftgo binary is built from /repo and generates Go code for a designed IDL corpus under 6 option configurations; the generated Write/Read (with apache thrift's TBinaryProtocol, all interpreted from go/ssa) are executed symbolically: for every value of every struct-like (all scalar leaves full-width symbolic, optional presence symbolic, containers/strings of the stated lengths) the bytes written decode under an independent schema-driven reference decoder to exactly that value, and Read of the reference encoding yields that value; an unknown field with a FREE i16 id of any of 11 wire types at any position is skipped, a retagged declared field is skipped (error iff required), a deleted field is an error iff required, a union with 0 or 2 members is refused.",
    note="The programs dimension is the designed corpus (7 struct-likes in one file; sampled), only values/perturbations are solver-decided. Bounds: container and string length n<=1 quick, <=2 thorough, recursion depth 1. Presentation-only configurations are checked against the same reference (so they cannot change a wire byte). use_type_alias=false, value_type_in_container and cross-include corpora are not covered yet. Trusted: own SSA interpreter + z3 5.1, the reference codec in the harness, corpus naming convention (IDL name -> Go name).",
